@@ -95,4 +95,7 @@ void iolog_account (int *blocks, long *bytes) ;
 
 /* fdworld.c (C19: real descriptors) */
 void op_fdworld (char **tok, int ntok) ;
+
+/* failopen.c (C09 / C16: one open attempt + "did it change the caller's file") */
+void op_failopen (char **tok, int ntok) ;
 #endif
